@@ -1,6 +1,7 @@
 package manager
 
 import (
+	"bufio"
 	"bytes"
 	"context"
 	"encoding/json"
@@ -25,7 +26,6 @@ import (
 	"github.com/fsnotify/fsnotify"
 	"github.com/gopacket/gopacket"
 	"github.com/gopacket/gopacket/layers"
-	"github.com/gopacket/gopacket/pcap"
 	"github.com/gopacket/gopacket/pcapgo"
 	"github.com/spq/pkappa2/internal/index"
 	"github.com/spq/pkappa2/internal/index/builder"
@@ -2369,29 +2369,23 @@ func (mgr *Manager) newPcapOverIPEndpoint(ctx context.Context, address string) *
 					return
 				}
 				conn := c.(*net.TCPConn)
-				file, err := conn.File()
-				if err != nil {
-					conn.Close()
-					log.Printf("Can't get file descriptor of PCAP-over-IP endpoint %q: %v\n", endpoint.Address, err)
-					return
-				}
 				ctx, innerCancel := context.WithCancel(ctx)
 				go func() {
 					<-ctx.Done()
 					_ = conn.CloseRead()
 					_ = conn.CloseWrite()
 					conn.Close()
-					file.Close()
 				}()
 				defer innerCancel()
-				handle, err := pcap.OpenOfflineFile(file)
+				// read the capture stream from the connection itself: handing a duplicate of the descriptor to
+				// libpcap made two owners of one descriptor, it was closed twice when the connection ended
+				handle, err := newPcapStreamReader(conn)
 				if err != nil {
-					log.Printf("Can't open file descriptor of PCAP-over-IP endpoint %q: %v\n", endpoint.Address, err)
+					log.Printf("Can't read capture stream of PCAP-over-IP endpoint %q: %v\n", endpoint.Address, err)
 					return
 				}
-				defer handle.Close()
 				lt := handle.LinkType()
-				sl := handle.SnapLen()
+				sl := handle.Snaplen()
 				log.Printf("Connection to PCAP-over-IP endpoint %q established (using linkType %s and snaplen %d)\n", endpoint.Address, lt.String(), sl)
 
 				endpoint.infoLock.Lock()
@@ -2422,6 +2416,37 @@ func (mgr *Manager) newPcapOverIPEndpoint(ctx context.Context, address string) *
 		}
 	}()
 	return endpoint
+}
+
+// pcapStreamReader reads packets of a capture in pcap or pcapng format from a stream.
+type pcapStreamReader interface {
+	ReadPacketData() ([]byte, gopacket.CaptureInfo, error)
+	LinkType() layers.LinkType
+	Snaplen() uint32
+}
+
+type pcapNgStreamReader struct {
+	*pcapgo.NgReader
+}
+
+func (pcapNgStreamReader) Snaplen() uint32 {
+	return 0
+}
+
+func newPcapStreamReader(r io.Reader) (pcapStreamReader, error) {
+	br := bufio.NewReader(r)
+	magic, err := br.Peek(4)
+	if err != nil {
+		return nil, err
+	}
+	if bytes.Equal(magic, []byte{0x0a, 0x0d, 0x0d, 0x0a}) {
+		ng, err := pcapgo.NewNgReader(br, pcapgo.DefaultNgReaderOptions)
+		if err != nil {
+			return nil, err
+		}
+		return pcapNgStreamReader{ng}, nil
+	}
+	return pcapgo.NewReader(br)
 }
 
 // info returns a consistent copy of the endpoint's counters.
